@@ -76,7 +76,7 @@ func C17(p *core.Program, r *core.Report) {
 		len(core.CallsTo(ma, cbor+".Marshal")) == 1 && len(core.CallsTo(ua, cbor+".Unmarshal")) == 1
 	if okL {
 		w := core.CallsTo(ma, cbor+".WriteArrayLength")[0]
-		lc, ok := core.Strip(core.CallArgs(w)[0]).(*ssa.Call)
+		lc, ok := core.Strip(core.Arg(w, 0)).(*ssa.Call)
 		okL = ok && lc.Common().Value.Name() == "len" && lc.Common().Args[0] == ssa.Value(ma.Params[0])
 		okL = okL && core.InLoop(core.CallsTo(ma, cbor+".Marshal")[0].Block()) && core.InLoop(core.CallsTo(ua, cbor+".Unmarshal")[0].Block())
 	}
@@ -108,7 +108,7 @@ func C17(p *core.Program, r *core.Report) {
 		for _, fn := range []*ssa.Function{cp.enc, cp.dec} {
 			for _, n := range []string{"encoding/binary.Write", "encoding/binary.Read"} {
 				for _, c := range core.CallsTo(fn, n) {
-					if !strings.Contains(core.CallArgs(c)[1].String(), "BigEndian") && !isBigEndian(core.CallArgs(c)[1]) {
+					if !strings.Contains(core.Arg(c, 1).String(), "BigEndian") && !isBigEndian(core.Arg(c, 1)) {
 						okBE = false
 					}
 				}
@@ -125,6 +125,7 @@ func C17(p *core.Program, r *core.Report) {
 	checkTCPCLCodes(p, r, msgTypes)
 	checkWamCodes(p, r)
 	checkInvalidRejected(p, r)
+	checkTextNumberWidth(p, r)
 	checkBundleIDLen(p, r)
 }
 
@@ -360,7 +361,7 @@ func checkTCPCLCodes(p *core.Program, r *core.Report, msgTypes []string) {
 	for _, c := range core.CallsTo(rm, "io.MultiReader") {
 		// first reader is a buffer over the same byte slice that was read
 		var first ssa.Value
-		if sl, ok := core.CallArgs(c)[0].(*ssa.Slice); ok {
+		if sl, ok := core.Arg(c, 0).(*ssa.Slice); ok {
 			if a, ok := sl.X.(*ssa.Alloc); ok {
 				for _, ref := range *a.Referrers() {
 					if ia, ok := ref.(*ssa.IndexAddr); ok {
@@ -377,7 +378,7 @@ func checkTCPCLCodes(p *core.Program, r *core.Report, msgTypes []string) {
 		}
 		var readBuf ssa.Value
 		for _, rf := range core.CallsTo(rm, "io.ReadFull") {
-			readBuf = core.CallArgs(rf)[1]
+			readBuf = core.Arg(rf, 1)
 		}
 		if first != nil && readBuf != nil && core.DependsOn(first, func(v ssa.Value) bool { return v == readBuf }) {
 			okRe = true
@@ -411,7 +412,7 @@ func checkWamCodes(p *core.Program, r *core.Report) {
 		if !ok || core.CalleeName(tc) != "reflect.TypeOf" {
 			return
 		}
-		t := core.Strip(core.CallArgs(tc)[0]).Type()
+		t := core.Strip(core.Arg(tc, 0)).Type()
 		named, ok := t.(*types.Named)
 		if !ok {
 			return
@@ -645,7 +646,7 @@ func firstReadTarget(fn *ssa.Function) *ssa.Alloc {
 			return
 		}
 		if c, ok := in.(*ssa.Call); ok && core.CalleeName(c) == "encoding/binary.Read" {
-			if a, ok := core.Strip(core.CallArgs(c)[2]).(*ssa.Alloc); ok {
+			if a, ok := core.Strip(core.Arg(c, 2)).(*ssa.Alloc); ok {
 				out = a
 			}
 		}
@@ -780,4 +781,115 @@ func checkSharedAppend(p *core.Program, r *core.Report) {
 	}
 	r.Min("appends on package-level slices", 1)
 	r.Count("appends on package-level slices", n)
+}
+
+// checkTextNumberWidth: the numeric components of an endpoint's URI text are
+// parsed with the full width of the field that stores them (uint64): every
+// value stored into an unsigned 64-bit field of an EndpointType inside a
+// function that parses text comes straight from strconv.ParseUint(_, 10, 64).
+// A narrower or signed parse (Atoi, ParseInt, bitSize < 64) rejects the upper
+// part of the range although such an endpoint is valid, encodes, decodes and
+// prints — text and structure would no longer determine each other.
+func checkTextNumberWidth(p *core.Program, r *core.Report) {
+	n := 0
+	rule := "a number taken from URI text into a uint64 endpoint field is parsed by strconv.ParseUint(text, 10, 64): the text form covers exactly the range of the field"
+	for _, named := range p.Implementations(bp7, "EndpointType") {
+		st, ok := named.Underlying().(*types.Struct)
+		if !ok {
+			continue
+		}
+		for _, fn := range p.RepoFuncs() {
+			if fn.Pkg != p.Pkg(bp7) {
+				continue
+			}
+			// text parsers: functions with a string parameter
+			hasStr := false
+			for _, par := range fn.Params {
+				if b, ok := par.Type().Underlying().(*types.Basic); ok && b.Kind() == types.String {
+					hasStr = true
+				}
+			}
+			if !hasStr {
+				continue
+			}
+			core.EachInstr(fn, func(in ssa.Instruction) {
+				stI, ok := in.(*ssa.Store)
+				if !ok {
+					return
+				}
+				fa, ok := stI.Addr.(*ssa.FieldAddr)
+				if !ok || !types.Identical(derefNamed(fa.X.Type()), named) {
+					return
+				}
+				ft, ok := st.Field(fa.Field).Type().Underlying().(*types.Basic)
+				if !ok || ft.Kind() != types.Uint64 {
+					return
+				}
+				n++
+				key := fmt.Sprintf("text-number-width/%s/%s.%s", fname(fn), named.Obj().Name(), st.Field(fa.Field).Name())
+				v := stI.Val
+				why := ""
+				for {
+					if cv, ok := v.(*ssa.Convert); ok {
+						if b, ok := cv.X.Type().Underlying().(*types.Basic); !ok || b.Kind() != types.Uint64 {
+							why = "the value is converted from " + cv.X.Type().String() + ", which does not cover the field's range"
+							break
+						}
+						v = cv.X
+						continue
+					}
+					if ct, ok := v.(*ssa.ChangeType); ok {
+						v = ct.X
+						continue
+					}
+					break
+				}
+				okP := false
+				if why == "" {
+					// all reaching definitions (the variable may be a phi / named result load)
+					okP = core.DependsOn(v, func(x ssa.Value) bool {
+						ex, ok := x.(*ssa.Extract)
+						if !ok || ex.Index != 0 {
+							return false
+						}
+						c, ok := ex.Tuple.(*ssa.Call)
+						if !ok || core.CalleeName(c) != "strconv.ParseUint" {
+							return false
+						}
+						base, _ := core.ConstInt(core.Arg(c, 1))
+						bits, _ := core.ConstInt(core.Arg(c, 2))
+						return base == 10 && bits == 64
+					}) && !core.DependsOn(v, func(x ssa.Value) bool {
+						c, ok := x.(*ssa.Call)
+						if !ok {
+							return false
+						}
+						cn := core.CalleeName(c)
+						if !strings.HasPrefix(cn, "strconv.") {
+							return false
+						}
+						if cn == "strconv.ParseUint" {
+							base, _ := core.ConstInt(core.Arg(c, 1))
+							bits, _ := core.ConstInt(core.Arg(c, 2))
+							return !(base == 10 && bits == 64)
+						}
+						return true
+					})
+					if !okP {
+						why = "the value does not come from strconv.ParseUint(_, 10, 64) only"
+					}
+				}
+				r.Check(okP, key, rule, p.Pos(stI.Pos()), "", why)
+			})
+		}
+	}
+	r.Count("uint64 endpoint fields filled from text", n)
+	r.Min("uint64 endpoint fields filled from text", 2)
+}
+
+func derefNamed(t types.Type) types.Type {
+	if pt, ok := t.Underlying().(*types.Pointer); ok {
+		return pt.Elem()
+	}
+	return t
 }
